@@ -135,7 +135,11 @@ def gen_stress(rng):
         parts = [[lo, hi, rng.choice(["i", "o", "io"]), rng.randrange(nmod), rng.randrange(nsig)] for lo, hi in zip(bounds, bounds[1:])
                  if rng.random() < 0.9]
         iob.append({"w": w, "parts": parts})
-    return {"modules": modules, "signals": signals, "ports": ports, "instances": instances, "mems": mems, "iob": iob}
+    prints = []
+    for _ in range(rng.choice([0, 0, 1, 2])):
+        prints.append({"mod": rng.randrange(nmod), "dom": rng.choice(["comb", "sync"]), "kind": rng.choice(["print", "assert", "assume", "cover"]),
+                       "text": rng.choice(STRS + ["{{braces}}", "100%"]), "sig": rng.randrange(nsig), "spec": rng.choice(["", "x", "08b", ">6d", "c" , "s"])})
+    return {"modules": modules, "signals": signals, "ports": ports, "instances": instances, "mems": mems, "iob": iob, "prints": prints}
 
 
 def build_stress(d):
@@ -216,6 +220,27 @@ def build_stress(d):
         rp = mem.read_port(domain="sync" if me["sync"] else "comb")
         a = sigs[me["addr"]]
         mods[me["mod"]].d.comb += [rp.addr.eq(a), wp.addr.eq(a), wp.data.eq(a), wp.en.eq(a[0] if len(a) else 0), sigs[me["q"]].eq(rp.data)]
+    from amaranth.hdl import Print, Assert, Assume, Cover, Format
+    for pr in d.get("prints", []):
+        sg = sigs[pr["sig"]]
+        spec = pr["spec"]
+        if spec == "s" and len(sg) % 8:
+            spec = "x"
+        if spec == "c" and len(sg) > 21:
+            spec = ""
+        try:
+            fmt = Format(pr["text"].replace("{", "{{").replace("}", "}}") + " {:" + spec + "}", sg)
+        except ValueError:
+            fmt = Format("{}", sg)
+        mm = mods[pr["mod"]]
+        if pr["kind"] == "print":
+            mm.d[pr["dom"]] += Print(fmt)
+        elif pr["kind"] == "assert":
+            mm.d[pr["dom"]] += Assert(sg == 0, fmt)
+        elif pr["kind"] == "assume":
+            mm.d[pr["dom"]] += Assume(sg.any(), fmt)
+        else:
+            mm.d[pr["dom"]] += Cover(sg.all(), fmt)
     ioports = []
     for b in d["iob"]:
         port = IOPort(b["w"], name="pad")
@@ -351,7 +376,7 @@ def run_stress(rng, out):
     check_instances(doc, d, sigs, out, ctx)
     names = [s["name"] for s in d["signals"] if s["name"]]
     clash = len(set(names)) != len(names)
-    for k, v in (("name-clash", clash), ("instances", bool(d["instances"])), ("memory", bool(d["mems"])), ("io-buffer", bool(d["iob"])),
+    for k, v in (("name-clash", clash), ("instances", bool(d["instances"])), ("print-or-property-cells", bool(d.get("prints"))), ("memory", bool(d["mems"])), ("io-buffer", bool(d["iob"])),
                  ("anonymous-submodule", any(m["name"] is None for m in d["modules"][1:])), ("zero-width", any(s["w"] == 0 for s in d["signals"])),
                  ("private-name", any(s["name"] == "" for s in d["signals"]))):
         if v:
